@@ -249,6 +249,8 @@ class Run:
         for key, d in sorted(self.drift.items()):
             print(f"SPEC-DRIFT: property={self.pid} {key} {d['what']} (x{d['count']})")
         os.makedirs(REPLAY, exist_ok=True)
+        if os.environ.get("VERIF_REPO", "/repo") != "/repo":
+            print(f"NOTE: checking scratch tree {os.environ['VERIF_REPO']} (not /repo)")
         for key, v in new:
             h = hashlib.sha1(key.encode()).hexdigest()[:10]
             path = os.path.join(REPLAY, f"{self.pid}-{h}.json")
@@ -273,8 +275,9 @@ class Run:
         ev = {"property_id": self.pid, "tier": self.tier, "seed": self.seed, "level": self.level,
               "coverage": cov, "assumptions": self.assumptions,
               "wall_s": round(time.time() - self.t0, 2), "violations": len(new)}
-        os.makedirs(EVID, exist_ok=True)
-        with open(os.path.join(EVID, f"{self.pid}.json"), "w") as f:
+        evdir = EVID if not os.environ.get("VERIF_NO_EVIDENCE") else os.path.join(self.workdir, "evidence")
+        os.makedirs(evdir, exist_ok=True)
+        with open(os.path.join(evdir, f"{self.pid}.json"), "w") as f:
             json.dump(ev, f, indent=1, default=str)
         shutil.rmtree(self.workdir, ignore_errors=True)
         print(f"[{self.pid}/{self.tier}] states={cov['states']} replayed={cov.get('traces_validated_against_impl')} "
